@@ -152,6 +152,46 @@ for name, t in VARIANT_TYPES.items():
     add(f"c12-variance-grow-{name}", "C12", "reject",
         f"#[cfg(not(twin))] fn f<'s, 'a, 'b: 'a>(x: {ta}) -> {tb} {{ x }}\n#[cfg(twin)] fn f<'s, 'a, 'b: 'a>(x: {ta}) -> {ta} {{ x }}\nfn main() {{}}", LT)
 
+# brand preservation: every conversion that maps a branded value to a branded value must keep the
+# brand (a conversion that lets the output brand be chosen freely is an escape hatch)
+CONVERSIONS = {
+    "erase": ("Gc<'a, i32>", "Gc<'b, ()>", "Gc::erase(x)"),
+    "erase_kind": ("GcSlice<'a, u8>", "Gc<'b, [u8]>", "Gc::erase_kind(x)"),
+    "downgrade": ("Gc<'a, i32>", "GcWeak<'b, i32>", "Gc::downgrade(x)"),
+    "weak-erase": ("GcWeak<'a, i32>", "GcWeak<'b, ()>", "GcWeak::erase(x)"),
+    "unsize-gc-identity": ("Gc<'a, i32>", "Gc<'b, i32>", "gc_arena::unsize!(x => i32)"),
+    "unsize-gc-dyn": ("Gc<'a, i32>", "Gc<'b, dyn std::fmt::Debug>", "gc_arena::unsize!(x => dyn std::fmt::Debug)"),
+    "unsize-gc-slice": ("Gc<'a, [u8; 2]>", "Gc<'b, [u8]>", "gc_arena::unsize!(x => [u8])"),
+    "unsize-weak-identity": ("GcWeak<'a, i32>", "GcWeak<'b, i32>", "gc_arena::unsize!(x => i32)"),
+    "unsize-weak-dyn": ("GcWeak<'a, i32>", "GcWeak<'b, dyn std::fmt::Debug>", "gc_arena::unsize!(x => dyn std::fmt::Debug)"),
+    "unsize-weak-slice": ("GcWeak<'a, [u8; 2]>", "GcWeak<'b, [u8]>", "gc_arena::unsize!(x => [u8])"),
+    "as_thin": ("GcSlice<'a, u8>", "gc_arena::GcThinSlice<'b, u8>", "Gc::as_thin(x)"),
+    "as_fat": ("gc_arena::GcThinSlice<'a, u8>", "GcSlice<'b, u8>", "Gc::as_fat(x)"),
+    "str-as_thin": ("GcStr<'a>", "gc_arena::GcThinStr<'b>", "Gc::as_thin(x)"),
+    "as_ref": ("Gc<'a, i32>", "&'b i32", "Gc::as_ref(x)"),
+    "copy": ("Gc<'a, i32>", "Gc<'b, i32>", "x"),
+    "weak-copy": ("GcWeak<'a, i32>", "GcWeak<'b, i32>", "x"),
+    "cached_ptr": ("gc_arena::zst_cache::ZstCache<'a, 8>", "Gc<'b, ()>", "x.cached_ptr()"),
+    "set-copy": ("DynamicRootSet<'a>", "DynamicRootSet<'b>", "x"),
+    "lock-get": ("Gc<'a, Lock<Option<Gc<'a, i32>>>>", "Option<Gc<'b, i32>>", "x.get()"),
+}
+for name, (tin, tout, expr) in CONVERSIONS.items():
+    same = tout.replace("'b", "'a")
+    add(f"c12-brand-conv-{name}", "C12", "reject",
+        f"#[cfg(not(twin))] fn f<'a, 'b>(x: {tin}) -> {tout} {{ {expr} }}\n#[cfg(twin)] fn f<'a, 'b>(x: {tin}) -> {same} {{ {expr} }}\nfn main() {{}}", LT)
+# conversions that need a Mutation: the result carries the brand of BOTH inputs
+CONV_MC = {
+    "upgrade": ("GcWeak<'a, i32>", "Option<Gc<'b, i32>>", "x.upgrade(mc)"),
+    "write": ("Gc<'a, Lock<i32>>", "&'b Write<Lock<i32>>", "Gc::write(mc, x)"),
+    "new": ("i32", "Gc<'b, i32>", "Gc::new(mc, x)"),
+    "stash-fetch": ("DynamicRootSet<'a>", "Gc<'b, i32>", "{ let h = x.stash::<Rootable![i32]>(mc, Gc::new(mc, 1)); x.fetch(&h) }"),
+    "zst-alloc": ("gc_arena::zst_cache::ZstCache<'a, 8>", "Gc<'b, ()>", "x.alloc(mc, ())"),
+}
+for name, (tin, tout, expr) in CONV_MC.items():
+    same = tout.replace("'b", "'a")
+    add(f"c12-brand-conv-mc-{name}", "C12", "reject",
+        f"#[cfg(not(twin))] fn f<'a, 'b>(mc: &Mutation<'a>, x: {tin}) -> {tout} {{ {expr} }}\n#[cfg(twin)] fn f<'a, 'b>(mc: &Mutation<'a>, x: {tin}) -> {same} {{ {expr} }}\nfn main() {{}}", LT)
+
 # auto traits
 AUTO_TYPES = {
     "Gc": "Gc<'static, i32>",
